@@ -22,7 +22,7 @@ var c13 = core.Register(&core.Prop{
 	Shards: func(tier string) int { return pickTier(tier, 8, 16) },
 	Floors: func(c map[string]int64, tier string) []string {
 		var out []string
-		for _, k := range []string{"roundtrips", "unterminated_checked", "esc:simple", "esc:x", "esc:u", "esc:quote", "esc:backslash", "quote:single", "quote:double", "invalid_utf8_texts", "large_texts", "string_sequences", "codepoint_sweep", "literal_uses"} {
+		for _, k := range []string{"roundtrips", "unterminated_checked", "esc:simple", "esc:x", "esc:u", "esc:quote", "esc:backslash", "quote:single", "quote:double", "invalid_utf8_texts", "large_texts", "string_sequences", "codepoint_sweep", "literal_uses", "escape_at_buffer_boundary"} {
 			if c[k] == 0 {
 				out = append(out, "coverage floor: no "+k)
 			}
@@ -296,6 +296,22 @@ func runC13(w *core.W) {
 	w.ExhaustivePart("every text made of one or two elements of a 37-element pool (quotes, backslash, controls, line breaks, multi-byte, invalid bytes) x 2 quote styles x 4 escape rates")
 	for i, n := 0, w.Pick(150000, 1800000); i < n; i++ {
 		one(randText(r, 64), i)
+	}
+	// an escape (or a multi-byte character) right where a buffer of 2^k bytes would be full
+	zi := 0
+	for _, n := range []int{6, 7, 8, 9, 14, 15, 16, 17, 30, 31, 32, 33, 62, 63, 64, 65, 126, 127, 128, 129, 253, 254, 255, 256, 257, 258, 510, 511, 512, 513, 1022, 1023, 1024, 1025, 2047, 2048, 2049, 4094, 4095, 4096, 4097, 8191, 8192, 8193} {
+		for _, mid := range []struct{ text, lit string }{{"\n", "\\n"}, {"A", "\\x41"}, {"\u00e9", "\\xE9"}, {"\u00e9", "\\u00e9"}, {"\u2028", "\\u2028"}, {"'", "\\'"}, {"\\", "\\\\"}, {"\u4e2d", "\u4e2d"}, {"\t\t", "\\t\\t"}, {"\x00", "\\0"}} {
+			zi++
+			if !w.Mine(zi) {
+				continue
+			}
+			for _, fill := range []string{"x", "\u00e9"} {
+				body := strings.Repeat(fill, n/len(fill)) + strings.Repeat("y", n%len(fill))
+				text := body + mid.text + "tail"
+				c13Round(w, &StrCase{Text: []byte(text), Lit: []byte("'" + body + mid.lit + "tail'")})
+				w.Count("escape_at_buffer_boundary")
+			}
+		}
 	}
 	// literals in use: every template with texts that need escapes
 	ur := w.RNG("uses")
